@@ -9,7 +9,12 @@ from batchie.common import FloatingPointType, ArrayType
 from batchie.core import (
     ThetaHolder,
 )
-from batchie.data import ScreenBase, Screen
+from batchie.data import (
+    ScreenBase,
+    Screen,
+    encode_string_array,
+    decode_string_array,
+)
 
 
 class ModelEvaluation:
@@ -123,7 +128,7 @@ class ModelEvaluation:
             f.create_dataset("chain_ids", data=self.chain_ids, compression="gzip")
             f.create_dataset(
                 "sample_names",
-                data=np.char.encode(self.sample_names),
+                data=encode_string_array(self.sample_names),
                 compression="gzip",
             )
 
@@ -133,7 +138,7 @@ class ModelEvaluation:
             predictions = f["predictions"][:]
             observations = f["observations"][:]
             chain_ids = f["chain_ids"][:]
-            sample_names = np.char.decode(f["sample_names"][:], "utf-8")
+            sample_names = decode_string_array(f["sample_names"][:])
             return cls(
                 predictions=predictions,
                 observations=observations,
